@@ -242,7 +242,9 @@ def run_grid(case):
                 if how == "file":
                     g = Grid(f)
                 elif how == "vinfo":
-                    g = Grid(f, Vinfo=dict(N=N, hc=hc, theta_s=ths, theta_b=thb, Vstretching=Vs, Vtransform=Vt))
+                    vinfo = dict(N=N, hc=hc, theta_s=ths, theta_b=thb, Vstretching=Vs, Vtransform=Vt)
+                    Grid(f, Vinfo=vinfo, subgrid=[1, 3, 1, 3])  # the same configuration entry serves a nested domain first: it must come out of that unchanged
+                    g = Grid(f, Vinfo=vinfo)
                 else:  # the pure sigma coordinate hc = 0 (as an int and as a float) given explicitly, while the file says hc = 20
                     hc_used = 0.0
                     g = Grid(f, Vinfo=dict(N=N, hc=0 if how == "vinfo-hc0" else 0.0, theta_s=ths, theta_b=thb, Vstretching=Vs, Vtransform=Vt))
